@@ -189,6 +189,9 @@ def rand_probs(rng, n):
         nnz = sum(1 for v in r if v != 0)
         rows.append(r)
         kinds.append('disk' if nnz == 1 else ('zero' if nnz == 0 else 'pie'))
+    if all(kd == 'zero' for kd in kinds):      # an all-zero matrix is rejected by check_format ("input matrix is empty")
+        rows[0][0] = 1.0
+        kinds[0] = 'disk'
     return {'rows': rows, 'fmt': rng.choice(['dense', 'csr'])}, k, kinds
 
 
@@ -228,6 +231,10 @@ def graph_case(rng, nmax, family, force_name=None):
     n, E, fam = gen.random_graph(rng, nmax, directed=directed_graph, nmin=1)
     if family == 'nomatrix':
         E = []
+    if family == 'noposition' and not E:
+        # the layout (Spring) rejects a matrix without stored entries ("The input matrix is empty."), like every
+        # estimator of the library; an edgeless graph needs explicit positions
+        n, E = max(n, 2), ([(0, 1)] if directed_graph else [(0, 1), (1, 0)])
     wE, wkind = gen.random_weights(rng, E, directed=directed_graph)
     dtype = 'bool' if wkind == 'unit' and rng.random() < 0.3 else ('int' if wkind in ('unit', 'small_int') else 'float')
     entries = sorted((i, j) for (i, j, w) in wE)            # CSR order of the stored entries
@@ -332,6 +339,7 @@ def bigraph_case(rng, nmax, family, force_name=None):
     names_col = rand_names(rng, c) if rng.random() < 0.7 else None
     shapes_row, shapes_col = ['disk'] * r, ['disk'] * c
     k_row = k_col = 0
+    scores_partial = False
     mode = rng.choice(['none', 'labels', 'scores', 'probs', 'probs'])
     if mode == 'labels':
         if rng.random() < 0.8:
@@ -340,10 +348,13 @@ def bigraph_case(rng, nmax, family, force_name=None):
             o['labels_col'], _ = rand_vec(rng, [rng.randint(-1, 9) for _ in range(c)])
     elif mode == 'scores':
         both = rng.random() < 0.6
+        kr = kc = None
         if both or rng.random() < 0.5:
-            o['scores_row'], _ = rand_vec(rng, [rng.choice([0, 1, 2.5, 7, -3]) for _ in range(r)], keys_ok=not both)
+            o['scores_row'], kr = rand_vec(rng, [rng.choice([0, 1, 2.5, 7, -3]) for _ in range(r)])
         if both or 'scores_row' not in o:
-            o['scores_col'], _ = rand_vec(rng, [rng.choice([0, 1, 2.5, 7, -3]) for _ in range(c)], keys_ok=not both)
+            o['scores_col'], kc = rand_vec(rng, [rng.choice([0, 1, 2.5, 7, -3]) for _ in range(c)])
+        # both sides given, at least one as a dict that does not cover every node
+        scores_partial = both and (('dict' in o['scores_row'] and len(kr) < r) or ('dict' in o['scores_col'] and len(kc) < c))
     elif mode == 'probs':
         if rng.random() < 0.8:
             o['probs_row'], k_row, shapes_row = rand_probs(rng, r)
@@ -381,7 +392,7 @@ def bigraph_case(rng, nmax, family, force_name=None):
                 alias=rng.random() < 0.15, file=rng.random() < 0.3)
     meta = dict(kind='bigraph', r=r, c=c, entries=sorted(E), display_edges=display_edges,
                 names_row=names_row, names_col=names_col, shapes_row=shapes_row, shapes_col=shapes_col,
-                k_row=k_row, k_col=k_col)
+                k_row=k_row, k_col=k_col, scores_both_partial_dict=scores_partial)
     return 'bigraph', family, args, meta
 
 
@@ -618,7 +629,8 @@ def run(ctx, scratch):
             nontrivial = bool(meta) and bool(names) and (len(meta.get('entries', [1])) > 0)
             ctx.count(entry + ':' + fam, (entry, args), nontrivial)
             base = dict(entry=entry, family=fam, name_classes=classes, special_lt='<' in classes,
-                        alias=bool(args.get('alias')))
+                        alias=bool(args.get('alias')),
+                        scores_both_partial_dict=bool(meta and meta.get('scores_both_partial_dict')))
             if meta is None:
                 continue
             if meta['kind'] == 'dendrogram' and 'ok' in r and args.get('paris') is not None and not r['ok'].get('valid', True):
@@ -693,7 +705,7 @@ def run(ctx, scratch):
                             prelude=PRELUDE, shard=25)
         with_model = [(i, svg, skel) for (i, svg, skel) in chosen if skel is not None]
         models = coq_eval('c20model', COQ_IMPORTS, [model_expr(cases[i][3]) for (i, _, _) in with_model],
-                          prelude=PRELUDE, shard=50)
+                          prelude=PRELUDE, shard=2)   # small shards: coq_eval reads a shard's output through one 64 KB pipe
         model_of = {i: m for (i, _, _), m in zip(with_model, models)}
         for (i, svg, skel), ok in zip(chosen, verdicts):
             entry, fam, args, meta = cases[i]
@@ -737,6 +749,7 @@ def run(ctx, scratch):
         'numbers and colours formatted into attributes are free of < & " (safe fields); numeric formatting is observed, not modelled',
         'at most one of labels / scores / probs per drawing; label_colors has at least as many entries as probs has columns; '
         'edge labels only on stored entries; positive weights, no explicitly stored zeros; width and height not both None',
+        'a graph without stored entries is drawn with explicit positions (the Spring layout rejects empty matrices); probs has at least one non-zero entry (check_format rejects empty matrices)',
         'n_clusters >= 2 for dendrograms (n_clusters = 1 raises IndexError in cut_straight: property C08, defect D6)',
         'dendrograms returned by Paris that are not valid (C07, D25) are dropped and counted in margin_dropped',
         'worker runs in Python UTF-8 mode: open(filename, "w") in the code uses the locale encoding',
